@@ -18,7 +18,8 @@ RULE = (
   "case=(kind,seed,integrator): kind 'free' = generated constraint-free tree (free/ball/hinge/slide, springs, dampers incl. "
   "polynomial damping, armature, gravcomp, fluid, tendons, actuators with integrator/filter/filterexact/muscle/dcmotor "
   "dynamics, actearly, act limits); 'soft' = same plus joint/tendon limits, equalities and frictionloss (Newton, no "
-  "contacts); 'contact' = spheres/capsules/boxes-free scene resting on a plane; 'repo' = repository model. 3 worlds with "
+  "contacts); 'contact' = spheres/capsules/boxes-free scene resting on a plane; 'repo' = repository model; 'cap0' = "
+  "constraint-free model stepped with njmax=0 vs njmax=64 (capacity must not matter). 3 worlds with "
   "different random states (|omega| up to 30 rad/s on ball/free joints, unnormalised quaternions, random warmstart), 1 or 3 "
   "lock-steps. Non-trivial: nv>=2 and at least one world judged on qvel; distinct by hash(xml, integrator, flags, states)."
 )
@@ -121,6 +122,9 @@ def cases(tier, seed):
   for i in range(nc):
     integ = INTEGRATORS[i % 4]
     out.append({"id": f"contact{seed}_{i}", "kind": "contact", "seed": seed * 100000 + 40000 + i, "integrator": integ, "eulerdamp": (i // 4) % 2, "poly": 0, "nsteps": 3, "weight": 2})
+  for i in range(8 if tier == "quick" else 80):
+    integ = INTEGRATORS[i % 4]
+    out.append({"id": f"cap0_{seed}_{i}", "kind": "cap0", "seed": seed * 100000 + 80000 + i, "integrator": integ, "eulerdamp": 0, "poly": 0, "nsteps": 1, "weight": 1})
   for k, p in enumerate(REPO_MODELS):
     for r in range(1 if tier == "quick" else 8):
       integ = INTEGRATORS[(k + r) % 4]
@@ -132,8 +136,8 @@ def build_model(case, rng):
   import os
 
   kind = case["kind"]
-  if kind in ("free", "soft"):
-    xml, mjm, feat, s = gen.make_model(case["seed"], P_FREE if kind == "free" else P_SOFT, accept=_step.well_conditioned)
+  if kind in ("free", "soft", "cap0"):
+    xml, mjm, feat, s = gen.make_model(case["seed"], P_SOFT if kind == "soft" else P_FREE, accept=_step.well_conditioned)
     if mjm is None:
       return None, None, None
   elif kind == "contact":
@@ -202,6 +206,44 @@ def sample_states(mjm, rng, kind, nworld=3):
   return states
 
 
+def capacity_zero(rec, case, xml, mjm, m, states):
+  """Constraint-free model: one step with njmax=0 (legal capacity, the solver is skipped) must equal the step with njmax=64."""
+  import mujoco_warp as mjw
+
+  integ = case["integrator"]
+  for s in states:
+    s.setdefault("qacc_warmstart", np.zeros(mjm.nv, np.float32))
+  d0 = mw.make_data(mjm, m, states, njmax=0)
+  d1 = mw.make_data(mjm, m, states, njmax=64)
+  mjw.step(m, d0)
+  mjw.step(m, d1)
+  if int(mw.npy(d1.nefc).max()) > 0:
+    rec.inconcl("model has constraints: njmax=0 would legitimately overflow")
+    return rec.result()
+  for k in ("qvel", "qpos", "act", "time", "qacc_warmstart"):
+    if rec.violations and rec.violations[0]["sig"].startswith("njmax0:velocity_not_integrated"):
+      break  # qpos differences are consequences of the unintegrated velocity
+    a, b = np.array(mw.npy(getattr(d0, k))), np.array(mw.npy(getattr(d1, k)))
+    rec.check()
+    if a.tobytes() == b.tobytes():
+      rec.count("cap0:bit_equal_fields")
+      continue
+    scale = max(1.0, float(np.abs(b).max(initial=0)))
+    err = float(np.abs(a.astype(np.float64) - b).max()) if np.all(np.isfinite(a)) else float("inf")
+    rec.worst("cap0:" + k, err / (1e-4 * scale))
+    if err > 1e-2 * scale or (k == "qvel" and err > 1e-4 * scale and np.array_equal(a, np.stack([s["qvel"] for s in states]))):
+      unchanged = k == "qvel" and np.array_equal(a, np.stack([s["qvel"] for s in states]))
+      sig = "njmax0:velocity_not_integrated(efc.Ma never written)" if unchanged else f"njmax0:{k}_differs_from_njmax64"
+      rec.viol(sig, f"{integ}: step with njmax=0 gives {k} differing by {err:.3g} from the same step with njmax=64 on a constraint-free model" + ("; qvel is bit-identical to the initial qvel: solve() returns early for njmax==0 without writing efc.Ma, which euler()/implicit() use as right-hand side" if unchanged else ""))
+    elif err > 1e-4 * scale:
+      rec.inconcl(f"cap0 {k}: difference between round-off and violation line")
+  rec.cover("cap0:" + integ, 1)
+  if mjm.nv >= 2:
+    rec.nontrivial(xml, integ, "cap0", *[s["qpos"] for s in states])
+  rec.sample = {"kind": "cap0", "integrator": integ, "nv": mjm.nv, "has_damping": bool(np.any(mjm.dof_damping > 0))}
+  return rec.result()
+
+
 def run_case(case):
   rec = core.Rec(case)
   rng = np.random.default_rng(case["seed"])
@@ -217,6 +259,8 @@ def run_case(case):
     return rec.result()
   states = sample_states(mjm, rng, case["kind"])
   integ = case["integrator"]
+  if case["kind"] == "cap0":
+    return capacity_zero(rec, case, xml, mjm, m, states)
   res = _step.step_compare(rec, mjm, m, states, nsteps=case["nsteps"], seed=case["seed"], prefix=integ + ":")
   judged = res["gated"] + res["free"]
   rec.cover("integrator:" + integ, judged)
@@ -260,6 +304,8 @@ def requirements(agg, tier):
       unmet.append(f"actuator activation state never integrated with {integ}")
     if cov.get("gated:" + integ, 0) < 3:
       unmet.append(f"fewer than 3 gated constrained worlds for {integ}")
+  if sum(cov.get("cap0:" + i, 0) for i in INTEGRATORS) < 4:
+    unmet.append("njmax=0 capacity class never compared")
   for k in ("euler:eulerdamp_on", "euler:eulerdamp_off", "euler:with_damping", "lockstep_multi", "rows:ne", "rows:nf", "rows:nl", "rows:contact"):
     if not cov.get(k):
       unmet.append(f"never observed: {k}")
